@@ -103,6 +103,20 @@ def run(ctx):
             got_tree = f"unreadable: {e}"
         if remember_me:
             res.remember(case, lambda dc=dc: dc.to_string(), s)
+        if calls[0] % 4 == 3:
+            from particle.converters import EvtGenName2PDGIDBiMap
+            try:
+                alt = {}
+                for k, v in dc.decays.items():
+                    ids = [int(EvtGenName2PDGIDBiMap[d]) for d in v.daughters.to_list()]
+                    alt[k] = DecayMode.from_pdgids(v.bf, tuple(ids) if calls[0] % 8 == 3 else ids)
+            except Exception:
+                alt = None
+            if alt is not None:
+                res.count("chains_from_pdgids")
+                s_ids = DecayChain(dc.mother, alt).to_string()
+                if s_ids != s:
+                    res.violation("the same chain built from PDG IDs has another descriptor", case, impl=s_ids, model=s, clause="read back")
         if got_tree != want_tree:
             res.violation("descriptor read back by matching brackets is not the tree", case, impl={"string": s, "read": got_tree}, model=want_tree, clause="read back")
         nested = any(not isinstance(i, str) and any(not isinstance(j, str) for j in i[1]) for i in want_tree[1])
